@@ -135,3 +135,17 @@ func (c *Conn) SetReadDeadline(t time.Time) error {
 	return nil
 }
 func (c *Conn) SetWriteDeadline(time.Time) error { return nil }
+
+// Dead reports whether the connection is closed from either side.
+func (c *Conn) Dead() bool {
+	c.in.mu.Lock()
+	d := c.in.closed || c.in.broken
+	c.in.mu.Unlock()
+	if d {
+		return true
+	}
+	c.out.mu.Lock()
+	d = c.out.closed || c.out.broken
+	c.out.mu.Unlock()
+	return d
+}
